@@ -26,7 +26,7 @@ from props import unitlib as ul
 ID = 'C17'
 PROFILES = ['dev']
 REPLAY_PROFILES = ['dev', 'release']
-TIME_LIMIT = {'quick': 300, 'thorough': 900}
+TIME_LIMIT = {'quick': 600, 'thorough': 900}
 BUDGET = 200
 FIRST_BUDGET = 400
 CUNITS = ['Meter', 'Second', 'KiloGram', 'units::NEWTON', 'energy::JOULE', 'units::SIEVERT', 'units::GRAY', 'temperature::CELSIUS']
